@@ -104,7 +104,7 @@ def forests(n):
         if ok: out.append(pv)
     return out
 FORESTED = {"vh_attach", "vh_link_clusters", "vh_delete_gc", "vh_put_copy", "vh_temp_copy", "vh_finalise", "vh_scale", "vh_depth"}
-WINDOWED = {"vh_delete_gc", "vh_insert", "vh_put_copy", "vh_temp_copy", "vh_next", "vh_assoc_op", "vh_attach", "vh_attr_set"}
+WINDOWED = {"vh_next_end", "vh_delete_gc", "vh_insert", "vh_put_copy", "vh_temp_copy", "vh_next", "vh_assoc_op", "vh_attach", "vh_attr_set"}
 def slot_queries(pid, entries, quickmax, thoroughmax, extra=None, nmin=1, extra_unwind=None, src="slots.cpp", with_forest=False):
     qs = []
     for e in entries:
@@ -314,3 +314,45 @@ def c06():
             qs.append(Q(f"runfsm_n{n}_at{st}", "fsm.cpp", "vh_runfsm", {"NS": n, "WSTART": st}, unwind=n + 6, unwindset={"accumulate_rules": 5, "runFSM": n + 2, "reset": 3, "make_pass": 8}, tiers=tiers))
         qs.append(Q(f"adjust_n{n}", "fsm.cpp", "vh_adjust", {"NS": n}, unwind=n + 6, unwindset={"adjustSlot": 6, "make_pass": 8}, tiers=tiers))
     return qs
+
+# ------------------------------------------------------------------------------------------- C02
+META["C02"] = {
+    "bounds": "one-step safety lemmas on the real IR: (1) every arithmetic/push/return opcode body at stack depths {arity, 1023}: all stack accesses inside Machine::_stack, stop flag exactly when sp leaves [sb, sb+1024); (2,3) PUT_COPY / ASSOC with ARBITRARY parameter bytes on every window of 1..3 slots: slotat never leaves the slot map, operand bytes consumed = param_sz; NEXT at any map position dies past the end; (5) INSERT needs budget (decMax) and a slot, Segment::newSlot refuses beyond 64 slots per character; list primitives (DELETE+collectGarbage, TEMP_COPY, INSERT) are memory-safe from any well-formed stream; all memory safety by cbmc pointer/bounds/free checks",
+    "outside": "whole-pass rule loop budget (item 7), runFSM 64-slot capacity with long streams (item 4), collision loops (item 8), running arbitrary accepted programs end to end (decoder queries give no verdict within the caps, DESIGN 3.2 status); texts longer than the bounds; allocation failure",
+    "assumptions": ["INV_stream / INV_forest pre-states; operands present on the VM stack (loader depth analysis)"],
+}
+@prop("C02")
+def c02():
+    qs = []
+    for q in c07():
+        if q.entry == "vh_opcode" and q.defines.get("DEPTHSEL") in (0, 2) and q.defines.get("IMPL") == 0 and "quotient" not in q.name:
+            q.name = "stack_" + q.name; qs.append(q)
+    qs += slot_queries("C02", ["vh_put_copy", "vh_assoc_op", "vh_next_end", "vh_insert", "vh_delete_gc", "vh_temp_copy"], 2, 3)
+    qs += [Q("newslot_cap", "slots.cpp", "vh_newslot_cap", {"NS": 1}, unwind=8, unwindset={"newSlot": 3})]
+    return qs
+
+# ------------------------------------------------------------------------------------------- C08 / C09
+FROZEN_NOTE = ("frame lemma per primitive: with ll2c --frozen every store, memcpy/memmove/memset destination, free and realloc in library code is preceded by "
+               "an assertion that the target object is none of {Face, Silf, GlyphCache, its glyph array, every GlyphFace and its attribute storage}")
+META["C08"] = {
+    "bounds": FROZEN_NOTE + "; primitives and bounds: those of C03/C04/C05/C06 (reverseSlots, DELETE+collectGarbage, INSERT, PUT_COPY, TEMP_COPY, ASSOC, setAttr(attach.to), linkClusters, associateChars, appendSlot/read_text, setGlyph, runFSM, adjustSlot) at NS <= 2 (thorough 3); plus: the linked library (both VM builds) contains no mutable global variable (checked on every run from the IR)",
+    "outside": "API-call histories as such (purity is decided as frame lemmas, DESIGN 3.8); lazy glyph loading idempotence (GlyphCache::glyph from a partly filled cache) and Font advance cache - not harnessed; functions not reached by a frozen-mode harness (collision code, justification, finalise)",
+    "assumptions": ["face in the preloaded configuration (no glyph loader)"],
+}
+META["C09"] = dict(META["C08"])
+META["C09"]["outside"] = "thread interleavings themselves (the property is reduced to: no write to, and no callback through, any object reachable from the shared face; a data race needs a write); preload completeness of GlyphCache/CachedCmap/NameTable and the sealed get_table clause - not harnessed (DESIGN 3.9 status); functions not reached by a frozen-mode harness"
+def frozen_queries(pid):
+    qs = []
+    base = slot_queries(pid, ["vh_reverse", "vh_delete_gc", "vh_insert", "vh_put_copy", "vh_temp_copy", "vh_assoc_op", "vh_associate", "vh_append", "vh_link_clusters"], 2, 3) + \
+           slot_queries(pid, ["vh_attach"], 2, 2, with_forest=True) + [Q("setglyph", "slots.cpp", "vh_setglyph", {"NS": 1}, unwind=8)]
+    for enc in (8, 16): base.append(Q(f"read_text_u{enc}_len2", "text.cpp", "vh_read_text", {"ENC": enc, "LEN": 2, "EXTRA": 0}, unwind=8))
+    for st in (0, 1): base.append(Q(f"runfsm_n1_at0" if st == 0 else "adjust_n2", "fsm.cpp", "vh_runfsm" if st == 0 else "vh_adjust", {"NS": 1 if st == 0 else 2, "WSTART": 0}, unwind=8, unwindset={"accumulate_rules": 5, "runFSM": 4, "reset": 3, "make_pass": 8, "adjustSlot": 6}))
+    for q in base:
+        q.frozen = True; q.defines = dict(q.defines); q.defines["VH_FROZEN"] = None; q.name = "frozen_" + q.name
+        q.unwindset = dict(q.unwindset); q.unwindset["ll_frozen_check"] = 18
+        qs.append(q)
+    return qs
+@prop("C08")
+def c08(): return frozen_queries("C08")
+@prop("C09")
+def c09(): return frozen_queries("C09")
